@@ -53,6 +53,53 @@ impl World {
     }
 }
 
+impl World {
+    /// Resolve `rel` against directory `dir` the way the file system does: components are walked
+    /// one by one and a component that is a directory symlink of this world (`special`) is replaced
+    /// by its target before going on, so that `link/../x.s` lands next to the link's *target*.
+    /// Without symlinks this is `resolve`.
+    pub fn resolve_in(&self, dir: &str, rel: &str) -> Option<String> {
+        if !self.special.values().any(|s| matches!(s, Special::Symlink(_))) {
+            return resolve(dir, rel);
+        }
+        let mut parts: Vec<String> = Vec::new();
+        let all = if rel.starts_with('/') || dir.is_empty() { rel.to_string() } else { format!("{dir}/{rel}") };
+        let mut hops = 0;
+        let mut todo: Vec<String> = all.split('/').rev().map(str::to_string).collect();
+        while let Some(c) = todo.pop() {
+            match c.as_str() {
+                "" | "." => {}
+                ".." => {
+                    parts.pop()?;
+                }
+                x => {
+                    parts.push(x.to_string());
+                    let joined = parts.join("/");
+                    if let Some(Special::Symlink(t)) = self.special.get(&joined) {
+                        // only links to directories of this world are followed here; a link in
+                        // place of a file is left to the caller (it is a failing include)
+                        let is_dir_link = self.files.keys().any(|k| {
+                            let base = resolve(dir_of(&joined), t).unwrap_or_default();
+                            k.starts_with(&format!("{base}/"))
+                        });
+                        if is_dir_link {
+                            hops += 1;
+                            if hops > 16 {
+                                return None;
+                            }
+                            parts.pop();
+                            for comp in t.split('/').rev() {
+                                todo.push(comp.to_string());
+                            }
+                        }
+                    }
+                }
+            }
+        }
+        Some(parts.join("/"))
+    }
+}
+
 /// Directory part of a path ("" for top level, otherwise ends without '/').
 pub fn dir_of(path: &str) -> &str {
     match path.rfind('/') {
